@@ -126,13 +126,21 @@ def reachable_by_add_to_defs(order, doc):
     copies in `order` arriving in SOME sequence (gradients that end up unused are inserted too and removed afterwards)?
     The recorded defect explains an unstable order only when it was built that way."""
     import itertools
-    try: src = [e.get('id') for e in etree.fromstring(doc.encode()).iter('{http://www.w3.org/2000/svg}linearGradient', '{http://www.w3.org/2000/svg}radialGradient') if e.get('id')]
+    try:
+        root = etree.fromstring(doc.encode())
+        src = [e.get('id') for e in root.iter('{http://www.w3.org/2000/svg}linearGradient', '{http://www.w3.org/2000/svg}radialGradient') if e.get('id')]
+        # every child of a source <defs> that has an id passes through _add_to_defs as well (use targets, ...) and is removed afterwards
+        src += [k.get('id') for d in root.iter('{http://www.w3.org/2000/svg}defs') for k in d if isinstance(k.tag, str) and k.get('id')]
     except Exception: src = []
     cand = list(dict.fromkeys(list(order) + src))
     if len(cand) > 8: return True          # too many to enumerate: give the recorded mechanism the benefit of the doubt
     keep = set(order)
-    for perm in itertools.permutations(cand):
-        if [i for i in add_to_defs_order(perm) if i in keep] == list(order): return True
+    extras = [i for i in cand if i not in keep]
+    # the others may or may not have been inserted (moving children while iterating over them skips some)
+    for k in range(len(extras) + 1):
+        for sub in itertools.combinations(extras, k):
+            for perm in itertools.permutations(list(order) + list(sub)):
+                if [i for i in add_to_defs_order(perm) if i in keep] == list(order): return True
     return False
 
 def judge(doc, nd):
@@ -154,9 +162,30 @@ def judge(doc, nd):
         prev = nxt
     return None
 
+def gradient_order_docs():
+    """three used gradients in every document order, every choice of which users are transformed (a transformed user gets a
+    rewritten copy of its gradient): nothing but gradients carries an id, so the defs order is fully explained by _add_to_defs"""
+    import itertools
+    H = '<svg xmlns="http://www.w3.org/2000/svg" viewBox="0 0 40 40">'
+    G = lambda i: f'<linearGradient id="{i}" gradientUnits="userSpaceOnUse" x1="0" x2="10"><stop offset="0" stop-color="red"/><stop offset="1" stop-color="blue"/></linearGradient>'
+    for order in itertools.permutations('abc'):
+        for mask in range(8):
+            shapes = ''.join(f'<rect x="{3 * k}" y="1" width="2" height="8" fill="url(#{i})"' + (' transform="translate(1,2)"' if mask >> k & 1 else '') + '/>' for k, i in enumerate('abc'))
+            yield H + '<defs>' + ''.join(G(i) for i in order) + '</defs>' + shapes + '</svg>'
+
 def search(ctx, broken, disagreements):
     rng = ctx.rng
     found, n, dist, known_hits = [], 0, {}, 0
+    for doc in gradient_order_docs():
+        n += 1
+        v = judge(doc, 3)
+        if v:
+            item = {'law': v[0], 'input': {'doc': doc, 'ndigits': 3}, 'expected_by_spec': jsonable(v[1]), 'observed': jsonable(v[2])}
+            if matches_known(item, {'signature': {'pattern': 'defs_order_only'}}):
+                known_hits += 1
+                if known_hits > 1: continue
+            found.append(item)
+            if len(found) >= 2: break
     for i in range(ctx.n(220, 5000)):
         kw = [dict(), dict(gradients=0.6, uses=0.4), dict(strokes=0.6, clips=0.5), dict(shared_ids=True, nested=0.3)][i % 4]
         doc = docgen.random_doc(rng, **kw) if i % 4 != 3 else docgen.group_soup(rng)
